@@ -51,6 +51,7 @@ def _member_iter(node):
 
 def check(run):
     prog = Program()
+    _PROG[0] = prog
     prog.load_many(FILES)
     for f in FILES:
         run.use_file(f)
@@ -174,7 +175,17 @@ def _loops(fn):
     return [n for n in ast.walk(fn) if isinstance(n, ast.For)]
 
 
+_PROG = [None]
+
+
+def _prep(ci, fn):
+    """helpers expanded, single-definition locals replaced: the rules below see one shape of the code"""
+    from ..inline import prep, class_lookup
+    return prep(fn, class_lookup(_PROG[0], ci)) if fn is not None and _PROG[0] is not None else fn
+
+
 def _setter(run, ci, pname, s):
+    s = _prep(ci, s)
     param = s.args.args[1].arg if len(s.args.args) > 1 else None
     where = lambda n: (ci.mod.relpath, getattr(n, 'lineno', s.lineno))
     cname = '%s.%s setter' % (ci.name, pname)
@@ -306,6 +317,7 @@ def _typecheck_facts(fn, node):
 
 
 def _membership(run, prog, ci, pname, g, s):
+    s = _prep(ci, s)
     where = lambda n: (ci.mod.relpath, getattr(n, 'lineno', 0))
     run.subject('C15-R4')
     rets = [n for n in ast.walk(g) if isinstance(n, ast.Return) and n.value is not None]
@@ -369,6 +381,7 @@ def _membership(run, prog, ci, pname, g, s):
 
 
 def _adder(run, ci, m):
+    m = _prep(ci, m)
     where = lambda n: (ci.mod.relpath, getattr(n, 'lineno', 0))
     if len(m.args.args) < 2:
         return
@@ -393,6 +406,25 @@ def _adder(run, ci, m):
     if not good:
         run.fail('C15-R4', _key(ci, m.name, 'append'), *where(m), what='%s does not append the new member to the members' % m.name)
         return
+    # parenting and the membership update happen for every accepted member, not only under some other condition
+    from ..flow import enclosing_conditions
+    for site in sites + [st for t, v, st in pst]:
+        stmt = site
+        conds = []
+        for e, pol in enclosing_conditions(m, stmt):
+            if pol in ('in-loop',) and isinstance(e, ast.Tuple):
+                continue        # one-trip loop of an expanded helper
+            if isinstance(e, ast.expr) and norm(e).startswith(('isinstance(%s' % param, 'not isinstance(%s' % param)):
+                continue
+            conds.append(norm(e) if isinstance(e, ast.AST) else str(e))
+        run.subject('C15-R4')
+        if conds:
+            run.fail('C15-R4', _key(ci, m.name, 'conditional:' + ('parent' if site in [st for t, v, st in pst] else 'append')), *where(site),
+                     what='%s: "%s" only happens when %s: a member added otherwise is %s' % (
+                         m.name, norm(site), ' and '.join(conds),
+                         'listed but keeps its old scene-graph parent' if site in [st for t, v, st in pst] else 'parented but not listed'))
+        else:
+            run.ok('C15-R4', '%s.%s %s unconditional' % (ci.name, m.name, 'parenting' if site in [st for t, v, st in pst] else 'membership update'), norm(site), sample=False)
     for site in sites + [st for t, v, st in pst]:
         f = _typecheck_facts(m, site)
         if any(a[0].startswith('isinstance(%s' % param) and a[1] == 'true' for a in f):
@@ -461,6 +493,8 @@ _B = 'cherab/tools/observers/group/base.py'
 _S = 'cherab/tools/observers/group/spectroscopic.py'
 _F = 'cherab/tools/observers/group/fibreoptic.py'
 MUTANTS = [
+    dict(name='camera-parent-only-with-new-slit', file='cherab/tools/observers/bolometry.py',
+         find="        foil_detector.parent = self\n        self._foil_detectors.append(foil_detector)", replace="            foil_detector.parent = self\n        self._foil_detectors.append(foil_detector)", expect='C15-R4'),
     dict(name='setter-bound-to-other-name', file=_F, find="@radius.setter\n    def radius(self, value):", replace="@radius.setter\n    def acceptance_angle(self, value):", expect='C15-R1'),
     dict(name='getter-reads-other-attr', file=_B, find="return [observer.spectral_rays for observer in self._observers]", replace="return [observer.spectral_bins for observer in self._observers]", expect='C15-R2'),
     dict(name='scalar-branch-other-attr', file=_B, find="            for observer in self._observers:\n                observer.ray_max_depth = value", replace="            for observer in self._observers:\n                observer.ray_extinction_min_depth = value", expect='C15-R2'),
